@@ -1300,7 +1300,8 @@ class FlippedInterface:
         """
         if (name in self.__unflipped.signature.members and
                 self.__unflipped.signature.members[name].is_signature):
-            return flipped(getattr(self.__unflipped, name))
+            return _flipped_dimensions(getattr(self.__unflipped, name),
+                                       self.__unflipped.signature.members[name].dimensions)
         else:
             try: # descriptor first
                 return _gettypeattr(self.__unflipped, name).__get__(self, type(self.__unflipped))
@@ -1318,7 +1319,8 @@ class FlippedInterface:
         """
         if (name in self.__unflipped.signature.members and
                 self.__unflipped.signature.members[name].is_signature):
-            setattr(self.__unflipped, name, flipped(value))
+            setattr(self.__unflipped, name,
+                    _flipped_dimensions(value, self.__unflipped.signature.members[name].dimensions))
         else:
             try: # descriptor first
                 _gettypeattr(self.__unflipped, name).__set__(self, value)
@@ -1355,6 +1357,13 @@ def flipped(interface):
         return interface._FlippedInterface__unflipped
     else:
         return FlippedInterface(interface)
+
+
+def _flipped_dimensions(value, dimensions):
+    # An array member is a (nested) list of interface objects; flip each of them.
+    if dimensions and isinstance(value, (list, tuple)):
+        return [_flipped_dimensions(item, dimensions[1:]) for item in value]
+    return flipped(value)
 
 
 @final
